@@ -718,6 +718,12 @@ class Cursor(object):
 def connect(path, **kw):
     kw.pop("check_same_thread", None)
     kw.pop("timeout", None)
+    if kw.pop("uri", False) and isinstance(path, str) and path.startswith("file:"):
+        # sqlite URI file names: the file is what stands between "file:" and the first '?' or '#' (percent-escapes are not modelled)
+        path = path[5:]
+        for sep in ("?", "#"):
+            if sep in path:
+                path = path[:path.index(sep)]
     return Connection(path, **kw)
 
 
